@@ -3,6 +3,7 @@ import Proofs.C12.Toy
 import Proofs.E2E.C12
 import Proofs.E2E.C12Cof
 import Proofs.C12.EC
+import Proofs.C12.PyTree
 /-!
 # C12 — taproot outputs commit to exactly their key and script tree (DESIGN.md §3 C12)
 
@@ -31,8 +32,13 @@ Which hypothesis each theorem rests on, and where it is discharged:
   exactly its key" therefore means: among keys of one length at most one verifies (`output_key_unique`), and keys
   with one big-endian value verify alike (`output_key_as_integer`); the LENGTH of `q` is not committed.
 * collision resistance is NOT assumed: T3 *constructs* the collision / the tweak alias.
-* `leafHash` is specified for a version byte `v < 256` (every caller masks); the public `leaf_hash(v, …)` of
-  btclib raises `OverflowError` outside `0..255`, which is outside this model (C19's domain).
+* `leafHash` is specified for a version byte `v < 256` (every internal caller masks with 0xFE first); the PUBLIC
+  `leaf_hash(v, …)` is `leafHashPub`: an integer outside `0..LEAF_VERSION_MAX` (generated: 255) is refused
+  (`BTClibValueError`), never wrapped (`leaf_hash_refuses_out_of_byte`).
+* `Tree` is what a script tree IS; what reaches `tree_helper` at run time is any Python value (`PyVal`), and the guards
+  that refuse everything that is no tree are `PyVal.toTree` (`tree_helper_answers_exactly_trees`,
+  `tree_helper_refusals`, `entry_points_on_python_values`).  A list in script position other than a command list
+  (`Err.codec`) is the script codec's to judge and is outside the model.
 -/
 namespace Props.C12
 open Btc Btc.Taproot Gen.Taproot
@@ -244,6 +250,89 @@ theorem control_block_fields (o : GroupOps α) (H : TagHash) (q script : Bytes) 
     checkOutputPubkey o H q script (c0 :: (xb ++ path)) = checkFields o H q script c0.toNat xb path m :=
   check_eq o H q script c0 xb path m hx hp hm
 
+/-- T5 (`tree_helper` answers script trees and nothing else): a Python value is answered iff it is a well-formed
+    script tree — every node a list or tuple of ONE `(int version, list script)` pair or of TWO well-formed nodes —
+    and then the answer is `treeHelper` of the `Tree` it spells; every `Tree`, spelled with lists or with tuples, is
+    answered with exactly the `Tree`-level result (so T1b / T3m speak about the public function). -/
+theorem tree_helper_answers_exactly_trees (H : TagHash) (v : PyVal) :
+    (∀ r, treeHelperPy H v = .ok r ↔ ∃ t, WellFormed v t ∧ r = treeHelper H t) ∧
+    ((∃ e, treeHelperPy H v = .error e) ↔ ¬ ∃ t, WellFormed v t) ∧
+    (∀ (l : Bool) (n : Nat) (t : Tree), treeHelperPy H (t.toPy l n) = .ok (treeHelper H t)) := by
+  refine ⟨treeHelperPy_ok_iff H v, ?_, treeHelperPy_toPy H⟩
+  constructor
+  · rintro ⟨e, he⟩ ⟨t, ht⟩
+    rw [(treeHelperPy_ok_iff H v _).mpr ⟨t, ht, rfl⟩] at he; cases he
+  · intro hn
+    cases h : treeHelperPy H v with
+    | error e => exact ⟨e, rfl⟩
+    | ok r => obtain ⟨t, ht, -⟩ := (treeHelperPy_ok_iff H v r).mp h; exact absurd ⟨t, ht⟩ hn
+
+/-- T5r (which refusal): `tree_helper([])`, `()`, a node of three or more elements, an `int`, `None`/`str`/`bytes`
+    → "invalid script tree node"; a one-element node whose element is no 2-sequence (`[[leaf]]`, `[None]`, `[(v,)]`,
+    `["OP_1"]`) → "invalid script tree leaf"; a pair whose version is no `int` (or a `bool`) → TypeError on the version;
+    a script that is no list (bytes, tuple, None) → TypeError on the script; a malformed RIGHT subtree is refused as
+    well as a left one, and nothing after a refusal is read; every falsy value is refused. -/
+theorem tree_helper_refusals (H : TagHash) (l l' : Bool) (k : Nat) (b : Bytes) (z : Int) (a : Bool) (x y : PyVal) :
+    treeHelperPy H (.nil l) = .error .node ∧ treeHelperPy H (.many l k) = .error .node ∧
+    treeHelperPy H (.int z) = .error .node ∧ treeHelperPy H (.atom a) = .error .node ∧
+    treeHelperPy H (.one l (.one l' x)) = .error .leaf ∧ treeHelperPy H (.one l (.nil l')) = .error .leaf ∧
+    treeHelperPy H (.one l (.many l' k)) = .error .leaf ∧ treeHelperPy H (.one l (.atom a)) = .error .leaf ∧
+    treeHelperPy H (.one l (.int z)) = .error .leaf ∧ treeHelperPy H (.cmds 1 b) = .error .leaf ∧
+    treeHelperPy H (.one l (.two l' (.atom a) y)) = .error .vtype ∧
+    treeHelperPy H (.one l (.two l' (.int z) (.atom a))) = .error .stype ∧
+    treeHelperPy H (.one l (.two l' (.int z) (.two false x y))) = .error .stype ∧
+    (∀ e, treeHelperPy H x = .error e → treeHelperPy H (.two l x y) = .error e) ∧
+    (∀ r e, treeHelperPy H x = .ok r → treeHelperPy H y = .error e → treeHelperPy H (.two l x y) = .error e) ∧
+    (∀ v : PyVal, v.truthy = false → treeHelperPy H v = .error .node) := by
+  refine ⟨rfl, rfl, rfl, rfl, rfl, rfl, rfl, rfl, rfl, rfl, rfl, rfl, rfl, ?_, ?_, ?_⟩
+  · intro e he
+    unfold treeHelperPy at he ⊢
+    cases hx : x.toTree with
+    | ok t => rw [hx] at he; cases he
+    | error e' => rw [hx] at he; cases he; simp [PyVal.toTree, hx, Except.map]
+  · intro r e hr he
+    unfold treeHelperPy at hr he ⊢
+    cases hx : x.toTree with
+    | error e' => rw [hx] at hr; cases hr
+    | ok t =>
+      cases hy : y.toTree with
+      | ok t' => rw [hy] at he; cases he
+      | error e' => rw [hy] at he; cases he; simp [PyVal.toTree, hx, hy, Except.map]
+  · intro v hv; unfold treeHelperPy; rw [toTree_falsy v hv]; rfl
+
+/-- T5e (the entry points on Python values): on a well-formed tree `output_pubkey` / `output_prvkey` /
+    `input_script_sig` are the `Tree`-level functions T1–T3 are stated about; a truthy value that is no tree is refused
+    by all three with `tree_helper`'s refusal; a falsy one (`None`, `[]`, `()`, `0`, `""`) is key-path-only for the first
+    two and refused by the third.  (`hk`: the internal key, if any, is 33 or 65 octets — `_sec_from_key` judges other
+    lengths BEFORE the tree is walked, and reads 32 octets as a private key: outside the model.) -/
+theorem entry_points_on_python_values (o : GroupOps α) (H : TagHash) (sec : Option Bytes) (v : PyVal) (d i : Int)
+    (hk : secLenBad sec = false) :
+    (∀ t, WellFormed v t →
+      outputPubkeyPy o H sec v = outputPubkey o H sec (some t) ∧
+      outputPrvkeyPy o H d v = outputPrvkey o H d (some t) ∧
+      inputScriptSigPy o H sec v i = inputScriptSig o H sec t i) ∧
+    (∀ e, v.truthy = true → v.toTree = .error e →
+      outputPubkeyPy o H sec v = .error e ∧ outputPrvkeyPy o H d v = .error e ∧
+      inputScriptSigPy o H sec v i = .error e) ∧
+    (v.truthy = false →
+      outputPubkeyPy o H sec v = outputPubkey o H sec none ∧ outputPrvkeyPy o H d v = outputPrvkey o H d none ∧
+      ∃ e, inputScriptSigPy o H sec v i = .error e) := by
+  refine ⟨fun t hw => entry_points_wellFormed o H sec v t d i hw hk,
+    fun e ht he => entry_points_malformed o H sec v e d i ht he hk, fun hf => ?_⟩
+  obtain ⟨h1, h2, h3, h4⟩ := entry_points_falsy o H sec v d i hf
+  refine ⟨h1, h2, ?_⟩
+  cases h : outputPubkey o H sec none with
+  | ok r => exact ⟨_, h3 r h⟩
+  | error e => exact ⟨_, h4 e h⟩
+
+/-- T5v (the public `leaf_hash`): a version outside one byte is refused, never wrapped; inside it the hash is the
+    TapLeaf hash of `version ‖ CompactSize ‖ script`; every version the library itself passes (masked) is inside. -/
+theorem leaf_hash_refuses_out_of_byte (H : TagHash) (v : Int) (s : Bytes) :
+    (0 ≤ v ∧ v ≤ 255 → leafHashPub H v s = .ok (H TAG_LEAF (UInt8.ofNat v.toNat :: varBytes s))) ∧
+    (¬ (0 ≤ v ∧ v ≤ 255) → leafHashPub H v s = .error .version) ∧
+    (∀ w : Nat, leafHashPub H ((w &&& LEAF_MASK : Nat) : Int) s = .ok (leafHash H (w &&& LEAF_MASK) s)) :=
+  ⟨(leafHashPub_spec H v s).1, (leafHashPub_spec H v s).2, fun w => leafHashPub_masked H w s⟩
+
 -- non-vacuity -----------------------------------------------------------------------------------
 /-- a toy 32-byte "hash" (no collision resistance needed to exercise the definitions) -/
 def Hx : TagHash := fun tag m => (tag ++ m ++ List.replicate 32 0).take 32
@@ -255,6 +344,14 @@ example : lengthGate 1 = .ok (-1) ∧ lengthGate 0 = .error .badlen ∧ lengthGa
 example : ltBytes [1, 2] [1, 2, 0] = true ∧ ltBytes [1, 255] [2] = true ∧ ltBytes [7] [7] = false := by decide
 example : TAG_LEAF ≠ TAG_BRANCH ∧ TAG_BRANCH ≠ TAG_TWEAK := by decide
 example : (0xC1 &&& LEAF_MASK = 0xC0) ∧ (0xC1 &&& PARITY_MASK = 1) := by decide
+-- T5: `[[(0xC1, ["OP_1"])], ((-1, ["OP_2"]),)]` is a tree (versions read as 0xC0 and 0xFE); `[leaf, leaf, leaf]`, `[]`, `[[leaf]]` are not
+example : WellFormed (.two true (.one true (.two false (.int 0xC1) (.cmds 1 [0x51]))) (.one false (.two false (.int (-1)) (.cmds 1 [0x52]))))
+    (.node (.leaf 0xC1 [0x51]) (.leaf 255 [0x52])) :=
+  .node _ _ _ _ _ (.leaf _ _ 0xC1 _ _ (.cmds _ _)) (.leaf _ _ (-1) _ _ (.cmds _ _))
+example : treeHelperPy Hx (.two true (.one true (.two false (.int 0xC1) (.cmds 1 [0x51]))) (.nil true)) = .error .node := by decide
+example : leafHashPub Hx 256 [] = .error .version ∧ leafHashPub Hx (-1) [] = .error .version ∧
+    (leafHashPub Hx 255 []).isOk = true := by decide
+example : secLenBad (some (2 :: beBytes 32 5)) = false ∧ secLenBad none = false ∧ secLenBad (some [2, 3]) = true := by decide
 
 
 /-! the `Lawful` bundle is satisfiable (toy group ℤ/3, `Proofs/C12/Toy.lean`), and T1 / T2 / T3 instantiate on it:
